@@ -70,7 +70,7 @@ FileOK(f) ==
         /\ f.recs[i].tlvOk
         /\ f.recs[i].cls = 2 /\ f.recs[i].tag = 200 /\ f.recs[i].cons   \* [200] CHF record, X.690 context class
 FileWithinLimit(f) == \A i \in 1..Len(f.recs) : f.recs[i].tlvLen <= 65535 /\ f.recs[i].tlvLen >= 0
-\* `own` = identities of the containers carried by the request of this step; a record whose over-long encoding is due to
+\* `own` = <<lo, hi>>: the (consecutive) local sequence numbers of the containers carried by the request of this step; a record whose over-long encoding is due to
 \* this single request alone (all its containers are the request's own, or it was just created) is situation "single_request"
 \* (a record that was already over-long before this step was judged at the step that made it so)
 OldOver(u, i) == u \in DOMAIN pre.ue /\ i <= Len(pre.ue[u].recs) /\ Ev.state.ue[u].known /\
@@ -78,7 +78,7 @@ OldOver(u, i) == u \in DOMAIN pre.ue /\ i <= Len(pre.ue[u].recs) /\ Ev.state.ue[
                  Ev.state.ue[u].recs[i].berLen > 65535
 NewOver(u, x) == {i \in 1..Len(x.recs) : x.recs[i].berLen > 65535 /\ ~OldOver(u, i)}
 OverKind(u, x, own, isCreate) ==
-  IF \E i \in NewOver(u, x) : ~(isCreate \/ (x.recs[i].conts # <<>> /\ \A j \in 1..Len(x.recs[i].conts) : x.recs[i].conts[j] \in own))
+  IF \E i \in NewOver(u, x) : ~(isCreate \/ (x.recs[i].conts # <<>> /\ \A j \in 1..Len(x.recs[i].conts) : (x.recs[i].conts[j][1] >= own[1] /\ x.recs[i].conts[j][1] <= own[2])))
     THEN "accumulated" ELSE "single_request"
 FileClausesAt(s, own, isCreate) ==
   UNION {
@@ -89,7 +89,7 @@ FileClausesAt(s, own, isCreate) ==
       \cup (IF NewOver(u, x) = {} THEN {}
             ELSE {V("C03", "record_within_limit", [kind |-> OverKind(u, x, own, isCreate)])})
     : u \in DOMAIN s.ue }
-FileClauses(s) == FileClausesAt(s, {}, FALSE)
+FileClauses(s) == FileClausesAt(s, <<1, 0>>, FALSE)
 FileWritten(u) == Ev.state.ue[u].known /\ Ev.state.ue[u].file.exists
 
 (* C02: what the operation wrote to the subscriber's CDR file, read back by the independent TLV walker (tlv.go:
@@ -174,7 +174,7 @@ StepCreate ==
                      /\ resp.ref # ""
                      /\ Ev.result.seq = Ev.seq
      IN /\ pre' = obs /\ h' = h2
-        /\ viol' = viol \cup StateClauses(obs, h2) \cup FileClausesAt(Ev.state, {}, TRUE)
+        /\ viol' = viol \cup StateClauses(obs, h2) \cup FileClausesAt(Ev.state, <<1, 0>>, TRUE)
               \cup (IF ok /\ ~RefFresh(h, resp.ref) THEN {V("C10", "ref_unique", [same_subscriber |-> h.sess[resp.ref].u = a.u])} ELSE {})
               \cup (IF contract THEN {} ELSE {V("C12", "create_contract", [status |-> resp.status])})
               \cup (IF ok /\ ~(\E i \in 1..Len(Ev.args.times) : OpTimeOK(newr.optime, Ev.args.times[i], Ev.args.tz))
@@ -195,7 +195,7 @@ StepUpdate ==
          partial == ok /\ Len(a.trig) > 0 /\ a.trig[Len(a.trig)] # "final" /\ \E i \in 1..Len(a.usage) : HasOnline(a.usage[i])
          contract == ok /\ Ev.result.seq = Ev.seq /\ Ev.result.hasTs
      IN /\ pre' = obs /\ h' = h2
-        /\ viol' = viol \cup StateClauses(obs, h2) \cup FileClausesAt(Ev.state, {x : x \in {Ids(a.usage)[i] : i \in 1..Len(Ids(a.usage))}}, FALSE)
+        /\ viol' = viol \cup StateClauses(obs, h2) \cup FileClausesAt(Ev.state, <<Ev.args.lsnLo, Ev.args.lsnHi>>, FALSE)
               \cup (IF ok THEN GAClauses(pre, u, a.usage, resp.mui, a.trig, 1) ELSE {})
               \cup (IF known /\ ~contract THEN {V("C12", "update_contract", [status |-> resp.status])} ELSE {})
               \cup (IF known /\ ~ok THEN {V("C10", "ref_designates", [lost |-> TRUE, rejected |-> resp.status])} ELSE {})
@@ -224,7 +224,7 @@ StepRelease ==
          acted == known /\ (resp.status = 204 \/ (resp.status = 400 /\ DEV_Release400))
          h2   == IF acted THEN HRelease(h, a, [resp EXCEPT !.status = 204], 204) ELSE h
      IN /\ pre' = obs /\ h' = h2
-        /\ viol' = viol \cup StateClauses(obs, h2) \cup FileClausesAt(Ev.state, {Ids(a.usage)[i] : i \in 1..Len(Ids(a.usage))}, FALSE)
+        /\ viol' = viol \cup StateClauses(obs, h2) \cup FileClausesAt(Ev.state, <<Ev.args.lsnLo, Ev.args.lsnHi>>, FALSE)
               \cup (IF known /\ ~(resp.status = 204 /\ Ev.result.bodyEmpty)
                       THEN {V("C12", "release_contract", [status |-> resp.status])} ELSE {})
               \cup (IF known /\ ~acted THEN {V("C10", "ref_designates", [lost |-> TRUE, rejected |-> resp.status])} ELSE {})
